@@ -23,7 +23,7 @@ DESIGN_REF = 'DESIGN.md §3 C09'
 
 def antichain_lists(tier, rng):
     out = []
-    for X in gens.compact_inputs(tier, rng):
+    for X in gens.with_structured_orders(gens.compact_inputs(tier, rng), rng):
         if X and all(ref_decode(c) is not None for c in X) and is_antichain(X):
             out.append(X)
     # res-0 cells mixed with complete groups of other faces (the shape of the repaired defect)
@@ -41,7 +41,7 @@ def antichain_lists(tier, rng):
             X.remove(rng.choice(cells))
         rng.shuffle(X)
         out.append(X)
-    return out
+    return gens.with_structured_orders(out, rng)
 
 def gen_ops(tier, rng):
     ops = ['compact ' + ' '.join(map(str, l)) for l in antichain_lists(tier, rng)]
@@ -69,6 +69,13 @@ def check_list(drv, X, rng, fails):
         fails.append(Failure(f'compact raises {type(e).__name__} on a permutation/duplication or on its own output', {'cells': X})); return
     if set(Y2) != set(Y):
         fails.append(Failure('compact result depends on input order/duplication', {'cells': X, 'perm': Z})); return
+    for nm, W in (('ascending', sorted(X)), ('descending', sorted(X, reverse=True))):
+        try:
+            Y4 = cp.compact(list(W))
+        except Exception as e:  # noqa
+            fails.append(Failure(f'compact raises {type(e).__name__} on the same cells in {nm} id order', {'cells': W})); return
+        if set(Y4) != ref or len(Y4) != len(ref):
+            fails.append(Failure(f'compact of the same cells in {nm} id order returns {len(Y4)} cells, the canonical set has {len(ref)}', {'cells': W})); return
     if set(Y3) != set(Y) or len(Y3) != len(Y):
         fails.append(Failure('compacting the output again changes it', {'cells': X}))
 
